@@ -25,6 +25,13 @@ struct Pools {
     longs: Vec<S>,
     envs: Vec<S>,
     cmds: Vec<S>,
+    /// names used by enclosing command levels: an inner item may reuse one (a global `-v` that a
+    /// subcommand accepts too)
+    outer_shorts: Vec<char>,
+    outer_longs: Vec<S>,
+    /// names used so far at the level being generated (unique within a level)
+    level_shorts: Vec<char>,
+    level_longs: Vec<S>,
 }
 
 impl Pools {
@@ -42,7 +49,41 @@ impl Pools {
                 "BPAF_V_H", "bpaf_v_i", "Bpaf_V_J", "bpaf_V_k2",
             ],
             cmds: vec!["cmd", "sub", "run", "go"],
+            outer_shorts: vec![],
+            outer_longs: vec![],
+            level_shorts: vec![],
+            level_longs: vec![],
         }
+    }
+    fn short(&mut self, r: &mut Rng) -> Option<char> {
+        let free: Vec<char> = self
+            .outer_shorts
+            .iter()
+            .copied()
+            .filter(|c| !self.level_shorts.contains(c))
+            .collect();
+        let c = if !free.is_empty() && r.chance(1, 4) {
+            *r.pick(&free)
+        } else {
+            Pools::take(r, &mut self.shorts)?
+        };
+        self.level_shorts.push(c);
+        Some(c)
+    }
+    fn long(&mut self, r: &mut Rng) -> Option<S> {
+        let free: Vec<S> = self
+            .outer_longs
+            .iter()
+            .copied()
+            .filter(|c| !self.level_longs.contains(c))
+            .collect();
+        let l = if !free.is_empty() && r.chance(1, 4) {
+            *r.pick(&free)
+        } else {
+            Pools::take(r, &mut self.longs)?
+        };
+        self.level_longs.push(l);
+        Some(l)
     }
     fn take<T: Copy>(r: &mut Rng, v: &mut Vec<T>) -> Option<T> {
         if v.is_empty() {
@@ -57,19 +98,19 @@ impl Pools {
 fn gen_named(r: &mut Rng, p: &mut Pools, env_p: usize) -> Option<Named> {
     let mut n = Named::default();
     match r.below(4) {
-        0 => n.shorts.push(Pools::take(r, &mut p.shorts)?),
-        1 => n.longs.push(Pools::take(r, &mut p.longs)?),
+        0 => n.shorts.push(p.short(r)?),
+        1 => n.longs.push(p.long(r)?),
         _ => {
-            n.shorts.push(Pools::take(r, &mut p.shorts)?);
-            n.longs.push(Pools::take(r, &mut p.longs)?);
+            n.shorts.push(p.short(r)?);
+            n.longs.push(p.long(r)?);
         }
     }
     // hidden aliases: further short/long names on the same item
     if r.chance(1, 4) {
         if r.chance(1, 2) {
-            n.shorts.push(Pools::take(r, &mut p.shorts)?);
+            n.shorts.push(p.short(r)?);
         } else {
-            n.longs.push(Pools::take(r, &mut p.longs)?);
+            n.longs.push(p.long(r)?);
         }
     }
     if r.chance(env_p, 8) {
@@ -81,9 +122,11 @@ fn gen_named(r: &mut Rng, p: &mut Pools, env_p: usize) -> Option<Named> {
                 }
             }
             if r.chance(1, 10) {
-                // env-only item; give the names back
-                p.shorts.extend(n.shorts.drain(..));
-                p.longs.extend(n.longs.drain(..));
+                // env-only item; its names are simply not used
+                p.level_shorts.retain(|c| !n.shorts.contains(c));
+                p.level_longs.retain(|l| !n.longs.contains(l));
+                n.shorts.clear();
+                n.longs.clear();
             }
         }
     }
@@ -211,9 +254,21 @@ fn gen_level(r: &mut Rng, p: &mut Pools, depth: usize) -> Shape {
         let mut cmds = Vec::new();
         for _ in 0..k {
             if let Some(name) = Pools::take(r, &mut p.cmds) {
-                // names stay unique across levels: an outer item would otherwise claim what
-                // the user typed for the inner one and the oracle's bookkeeping would be wrong
+                // an inner level may reuse names of the enclosing levels; the scanner refuses
+                // lines on which such a name is ambiguous
+                let saved = (
+                    p.outer_shorts.clone(),
+                    p.outer_longs.clone(),
+                    std::mem::take(&mut p.level_shorts),
+                    std::mem::take(&mut p.level_longs),
+                );
+                p.outer_shorts.extend(saved.2.iter().copied());
+                p.outer_longs.extend(saved.3.iter().copied());
                 let root = gen_level(r, p, depth + 1);
+                p.outer_shorts = saved.0;
+                p.outer_longs = saved.1;
+                p.level_shorts = saved.2;
+                p.level_longs = saved.3;
                 let mut o = Opts::plain(root);
                 if r.chance(1, 2) {
                     o.version = Some("1.0");
@@ -560,6 +615,24 @@ pub fn scan(ix: &Index, argv: &[Tok]) -> Option<LineInfo> {
                         hit = Some((it, Some(tok[s.len() + 1..].to_vec())));
                     }
                 }
+                if hit.is_some() && level > 0 {
+                    // a name that an enclosing level accepts too: the outer item is evaluated
+                    // first and may or may not claim this token
+                    let mut anc = ix.levels[level].parent;
+                    let mut shared = false;
+                    while let Some(a) = anc {
+                        shared |= ix.items.iter().filter(|o| o.level == a).any(|o| {
+                            let (os, ol) = spellings(&o.named);
+                            os.iter().chain(ol.iter()).any(|n| {
+                                tok == n || (tok.starts_with(n) && tok.get(n.len()) == Some(&b'='))
+                            })
+                        });
+                        anc = ix.levels[a].parent;
+                    }
+                    if shared {
+                        return None;
+                    }
+                }
                 if hit.is_some() {
                     // names must be unambiguous within the level
                     let dup = ix
@@ -616,6 +689,21 @@ pub fn scan(ix: &Index, argv: &[Tok]) -> Option<LineInfo> {
         return None;
     }
     Some(info)
+}
+
+/// does an item of an enclosing level accept one of this item's names?
+fn shares_name_with_ancestor(ix: &Index, it: &Item) -> bool {
+    let mut anc = ix.levels[it.level].parent;
+    while let Some(a) = anc {
+        if ix.items.iter().filter(|o| o.level == a).any(|o| {
+            o.named.shorts.iter().any(|c| it.named.shorts.contains(c))
+                || o.named.longs.iter().any(|l| it.named.longs.contains(l))
+        }) {
+            return true;
+        }
+        anc = ix.levels[a].parent;
+    }
+    false
 }
 
 fn value_token(r: &mut Rng, ty: Ty, invalid: bool) -> Tok {
@@ -1198,11 +1286,62 @@ pub fn run_case(case: &Case, stats: &mut Stats) -> RunReport {
                     match &set {
                         Some((_, v)) => {
                             // ---- R3: variable == typed value
+                            // ---- R8: an item that is absent from its own level may be given
+                            // any other name; what is typed for a like-named item of an
+                            // enclosing level is none of its business
+                            if named_item {
+                                let renamed = map_leaf(&l.opts, it.id, &|n: &Named| {
+                                    let mut n = n.clone();
+                                    let fresh_s = ['Y', 'W', 'X'];
+                                    let fresh_l: [S; 3] = ["renamed-y", "renamed-w", "renamed-x"];
+                                    for (i, c) in n.shorts.iter_mut().enumerate() {
+                                        *c = fresh_s[i.min(2)];
+                                    }
+                                    for (i, lg) in n.longs.iter_mut().enumerate() {
+                                        *lg = fresh_l[i.min(2)];
+                                    }
+                                    n
+                                });
+                                let twin = Live {
+                                    parser: exec::build_unchecked(&renamed),
+                                    ix: index(&renamed),
+                                    opts: renamed,
+                                };
+                                let other = run_on(&twin, op);
+                                stats.bump("rule.R8.evaluated");
+                                let shared = shares_name_with_ancestor(&l.ix, it);
+                                if shared {
+                                    stats.bump("probe.R8_name_shared_with_outer_level");
+                                }
+                                let same = match (&first.outcome, &other.outcome) {
+                                    (Outcome::Value(a), Outcome::Value(b)) => a == b,
+                                    (a, b) => a.class() == b.class(),
+                                };
+                                if !same {
+                                    violation!(
+                                        "R8",
+                                        opi,
+                                        format!(
+                                            "rule=R8 shared-name={} classes={}/{}",
+                                            shared,
+                                            first.outcome.class(),
+                                            other.outcome.class()
+                                        ),
+                                        format!(
+                                            "item {:?} is absent from its own command level and its variable is set; renaming the item changes the outcome, so its variable fallback depends on something outside its scope\nas declared: {}\nrenamed    : {}",
+                                            it.named,
+                                            describe(&first),
+                                            describe(&other)
+                                        )
+                                    );
+                                }
+                            }
                             if it.ctx == Ctx::Simple
                                 && named_item
                                 && !has_catch
                                 && !it.adjacent_arg
                                 && !any_usage_fallback
+                                && !shares_name_with_ancestor(&l.ix, it)
                             {
                                 let mut tok: Vec<u8> = match it.named.longs.first() {
                                     Some(lg) => format!("--{}", lg).into_bytes(),
